@@ -217,6 +217,21 @@ def addNewSumZero (m : Mach) (s : Nat) (name : String) : Mach × Option PyErr :=
   let (m1, a) := allocRes m r
   addResult m1 s a
 
+/-- `add_new_result(name, update_type, value, total)` = `add_result(Result.create(name, update_type,
+    value, total))` (no accumulation flag can be passed) -/
+def addNewResult (m : Mach) (s : Nat) (name : String) (ty : Ty) (v t : Rat) : Mach × Option PyErr :=
+  match createRes name ty v t false with
+  | .error e => (m, some e)
+  | .ok r =>
+    let (m1, a) := allocRes m r
+    addResult m1 s a
+
+/-- `copy.deepcopy(result)` / a pickle round trip: a new object with the same attributes -/
+def copyRes (m : Mach) (a : Nat) : Mach × Option Nat :=
+  match m.res[a]? with
+  | none => (m, none)
+  | some r => let (m1, a') := allocRes m r; (m1, some a')
+
 /-- the `'num_skipped_reps'` tail of `merge_all_results` -/
 def mergeNsr (m : Mach) (s o : Nat) : Mach × Option PyErr :=
   if (dictGet? (dictOf m o) nsr).isNone then (m, none)
@@ -247,6 +262,15 @@ def copyDict (s : Nat) : Mach → List (String × Nat) → Mach
     let (m1, cs) := copyElems m (listAt m l)
     let (m2, l') := allocList m1 cs
     copyDict s (setDict m2 s (dictSet (dictOf m2 s) nm l')) rest
+
+/-- `copy.deepcopy(simresults)` / a pickle round trip: a new SimulationResults object (the last
+    one) with deep copies of all results and the same parameters -/
+def copySim (m : Mach) (s : Nat) : Mach :=
+  match m.sims[s]? with
+  | none => m
+  | some x =>
+    let m1 := { m with sims := m.sims ++ [{ dict := [], params := x.params }] }
+    copyDict m.sims.length m1 x.dict
 
 /-- `SimulationResults.merge_all_results` (current, repaired source): copy into an empty `self`;
     otherwise validate everything first, then merge -/
